@@ -219,7 +219,7 @@ impl<'a> Acc<'a> {
 
 pub fn add(run: &mut Run, kf: &KnownFindings, tier: &str) {
     let classify = kf.classifier("C15");
-    let max_len = if tier == "quick" { 3 } else { 6 };
+    let max_len = if tier == "quick" { 3 } else { 7 };
     let alphabet: [u64; 3] = [0, 2, 5];
     let mut acc = Acc {
         run,
@@ -293,7 +293,7 @@ pub fn add(run: &mut Run, kf: &KnownFindings, tier: &str) {
             vec![
                 (0..len as u64).map(|i| i * 3 + 1).collect(),
                 (0..len as u64).map(|i| alphabet[(i % 3) as usize]).collect(),
-                (0..len as u64).map(|i| 40 - i * 7).collect(),
+                (0..len as u64).map(|i| 100 - i * 7).collect(),
             ]
         };
         for s in srcs {
